@@ -144,7 +144,40 @@ def _raw_effects(p):
     return out
 
 
-def compare(program, live_fi, ref_fi, effects=default_effects,
+def compare(program, live_fi, ref_fi, effects=default_effects, **kw):
+    r = _compare(program, live_fi, ref_fi, effects=effects, **kw)
+    r["ref_fi"] = ref_fi
+    r["live_fi"] = live_fi
+    if r["verdict"] == "violation":
+        r["vanished"] = vanished_names(program.model, live_fi, ref_fi)
+    return r
+
+
+def vanished_names(model, live_fi, ref_fi):
+    """Attribute / method names the reference uses on `self` that no longer
+    occur anywhere in the live module (or, for methods, in the live class
+    hierarchy): the anchor was renamed or removed, so a mismatch is not
+    evidence of a behavioural difference."""
+    import re as _re
+    if not ref_fi.params:
+        return []
+    selfn = ref_fi.params[0]
+    names = set()
+    for n in ast.walk(ref_fi.node):
+        if isinstance(n, ast.Attribute) and isinstance(n.value, ast.Name) \
+                and n.value.id == selfn:
+            names.add(n.attr)
+    src_ = live_fi.module.source
+    if live_fi.cls is not None:
+        for k in model.mro(live_fi.cls.qualname):
+            c = model.classes.get(k)
+            if c is not None and c.module is not live_fi.module:
+                src_ += c.module.source
+    return sorted(n for n in names
+                  if not _re.search(r"\b%s\b" % _re.escape(n), src_))
+
+
+def _compare(program, live_fi, ref_fi, effects=default_effects,
             live_kw=None, ref_kw=None, outcome_norm=None, rename=None,
             independent=None):
     """`independent(atom)`: the rule's lemma that an observation outside the
